@@ -124,7 +124,7 @@ Proof.
         cbn [marks deliveries]; rewrite ?Hq, ?app_length; cbn [length]; unfold max_queue in *; dc_fin.
     + destruct (r_epoch s + 1 =? w_epoch w + 1); cbn; dc_fin.
   - destruct pushok; cbn; dc_fin.
-  - cbn; dc_fin.
+  - destruct (w_epoch w =? 0); cbn; dc_fin.
   - destruct ((w_epoch w =? 0) || negb (r_rrc s)); cbn; dc_fin.
   - destruct ((w_epoch w =? 0) || (w_ctype w =? ct_ccs)); cbn; dc_fin.
 Qed.
